@@ -740,7 +740,28 @@ impl From<(ASN1Value, Option<ExtensionMarker>)> for SubtypeElements {
 impl From<Constraint> for SubtypeElements {
     fn from(value: Constraint) -> Self {
         match value {
-            Constraint::Subtype(set) => Self::SizeConstraint(Box::new(set.set)),
+            Constraint::Subtype(mut set) => {
+                // `SIZE ((1..4), ...)`: a marker behind a parenthesised element belongs to the element
+                // set, which a size constraint has no place for; it is kept on the last element, where
+                // the element parsers put a marker that follows them directly
+                if set.extensible {
+                    let mut last = &mut set.set;
+                    loop {
+                        match last {
+                            ElementOrSetOperation::SetOperation(s) => last = &mut *s.operant,
+                            ElementOrSetOperation::Element(
+                                SubtypeElements::ValueRange { extensible, .. }
+                                | SubtypeElements::SingleValue { extensible, .. },
+                            ) => {
+                                *extensible = true;
+                                break;
+                            }
+                            ElementOrSetOperation::Element(_) => break,
+                        }
+                    }
+                }
+                Self::SizeConstraint(Box::new(set.set))
+            }
             _ => unreachable!(),
         }
     }
